@@ -7,6 +7,10 @@ def body(chk):
     attempt_driver.run_pair(chk, 'C10')   # two attempts interleaved on one thread: net effect on the process panic hook
     from checks import sched_worlds
     sched_worlds.run(chk, 'C10')       # panic-hook automaton on the simulated scheduler loop
+    # "or an error, in a step": a step function registered through the attributes reports Err by panicking in the wrapper
+    # the macro generates - decided on the MIR of that wrapper for a probe crate
+    from checks import macro_probe
+    macro_probe.obligations(chk, 'C10')
 
 
 if __name__ == '__main__':
